@@ -301,7 +301,7 @@ func chunkBytes(rng *rand.Rand, secs int) ([]byte, []int) {
 	out = fvPut(out, int32(len(data)))
 	out = append(out, data...)
 	offs = append(offs, len(out))
-	out = fvPut(out, 0) // block entities
+	out = fvPut(out, 0)      // block entities
 	for i := 0; i < 4; i++ { // four empty bit sets
 		offs = append(offs, len(out))
 		out = fvPut(out, 0)
@@ -339,7 +339,11 @@ func hostileDecoders() []hostileDecoder {
 			pk.Tuple{pk.Byte(be.XZ), pk.Short(be.Y), pk.VarInt(be.Type)}.WriteTo(&b)
 			b.Write(nbtDocBytes("network", nil, &nbtNode{T: 10, Ent: []nbtEntry{{K: ints([]byte("id")), N: &nbtNode{T: 8, Pat: ints([]byte("chest"))}}}}))
 			return b.Bytes(), nil
-		}, func(in []byte) error { var be level.BlockEntity; _, err := be.ReadFrom(bytes.NewReader(in)); return err }},
+		}, func(in []byte) error {
+			var be level.BlockEntity
+			_, err := be.ReadFrom(bytes.NewReader(in))
+			return err
+		}},
 		{"chat.Message.ReadFrom (NBT)", textNBT, func(in []byte) error { var m chat.Message; _, err := m.ReadFrom(bytes.NewReader(in)); return err }},
 		{"chat.JsonMessage.ReadFrom", func(rng *rand.Rand) ([]byte, []int) {
 			js := []byte(`{"text":"hi","bold":true,"extra":[{"text":"x","color":"red"}]}`)
